@@ -129,6 +129,23 @@ func runC19(c *Ctx) {
 			}
 		}
 	}
+	// every success of upgrade has been through the stored-vs-latest comparison: a shortcut before it ("no versions
+	// declared: nothing to do") accepts a database that is newer than anything the software understands
+	{
+		isCmp := func(ins ssa.Instruction) bool {
+			bo, ok := ins.(*ssa.BinOp)
+			if !ok {
+				return false
+			}
+			return (cur(bo.X) && latest(bo.Y)) || (latest(bo.X) && cur(bo.Y))
+		}
+		bad := p.mustPassToSuccess(up, nil, viaHelpers("cur-vs-latest", isCmp, true), nil)
+		detail := ""
+		if bad != nil {
+			detail = "upgrade can return success at " + p.Pos(bad.Pos()) + " without having compared the stored version with the latest known one: a database written by newer software is accepted instead of being refused with ErrReversion"
+		}
+		c.Check("C19-R1", "every-success-compared-stored-with-latest", up.Pos(), bad == nil, detail)
+	}
 	c.Floor("C19-R1", "'stored > latest' branch", nRev, 1)
 	c.Floor("C19-R1", "'stored < latest' branch", nUp, 1)
 	// the part of upgrade that records the version ("core"): upgrade itself, or the private part its upgrade branch was
